@@ -15,7 +15,8 @@ Masks == {"a*a!*@*", "*!*@*.very.long.host.example.org", "zo?!*@*", "z??", "*", 
           "zoë@127.0.0.3", "a!~u2", "??*!*@127.0.0.2", "*!*u3@*", ""}
 M(g1) == St(A, "MODE", <<<<"#one">>, g1>>)
 Acts == { M(<<"+b", m>>) : m \in Masks \ {""} } \cup { M(<<"+e", m>>) : m \in {"a", "zo?!*@*", "*!*@127.0.0.2"} }
-        \cup { M(<<"+I", m>>) : m \in {"a*a", "?!*@*"} } \cup { M(<<"+i">>), M(<<"b">>), M(<<"-b", "a">>), M(<<"-b", "*">>), M(<<>>) }
+        \cup { M(<<"+I", m>>) : m \in {"a*a", "?!*@*"} } \cup { M(<<"+i">>), M(<<"b">>), M(<<"-b", "a">>), M(<<"-b", "*">>), M(<<>>),
+                 M(<<"-I", "a*a">>), M(<<"-I", "?!*@*">>), M(<<"-e", "a">>), M(<<"-e", "zo?">>), M(<<"-b", "zoë@127.0.0.3">>), M(<<"+I">>), M(<<"+e">>) }
         \cup { St(c, "JOIN", <<<<"#one">>>>) : c \in {B, C} } \cup { St(c, "PRIVMSG", <<<<"#one">>, <<"hi">>>>) : c \in {A, B, C} }
         \cup { St(c, "WHO", <<<<m>>>>) : c \in {A, C}, m \in {"a*a", "*a", "z??", "zo?", "?", "*!*@127.0.0.?", "a*a*a*a*a*a*b", "*ë"} }
         \cup { St(c, "WHOIS", <<<<m>>>>) : c \in {A, C}, m \in {"a*a", "zo?", "?", "*"} }
